@@ -41,7 +41,7 @@ def check_serialize(run, L, path, fields, inv_adt):
     """writer table of one type, read off the Serialize::serialize body itself - derived or hand-written alike"""
     short = path.split('::')[-1]
     keys = find_root(L, lambda k: ('impl serde::Serialize for %s<' % path) in k and k.endswith('::serialize'))
-    key = '%s:ser:%s' % (PROP, path)
+    key = '%s:ser:%s' % (PROP, 'Decomposed' if path == 'transform::Decomposed' else path)
     if not run.ob(key + ':present', len(keys) == 1, rule='K8 writer table', expected='one Serialize::serialize body', found=keys):
         return
     r = L.roots[keys[0]]
@@ -100,7 +100,7 @@ def const_strs(L, v):
 def check_deserialize_header(run, L, path, fields):
     short = path.split('::')[-1]
     keys = find_root(L, lambda k: ('for %s<' % path) in k and 'serde::Deserialize' in k and k.endswith('>::deserialize') and k.count('::deserialize') == 1)
-    key = '%s:de:%s' % (PROP, path)
+    key = '%s:de:%s' % (PROP, 'Decomposed' if path == 'transform::Decomposed' else path)
     if not run.ob(key + ':present', len(keys) >= 1, rule='K8 reader table', expected='a Deserialize::deserialize body', found=keys):
         return
     r = L.roots[keys[0]]
@@ -371,7 +371,16 @@ def run(tier):
         how[path] = ('derived' if ser[0]['derived'] else 'manual', 'derived' if de[0]['derived'] else 'manual')
         if ser[0]['derived'] or de[0]['derived']:
             sattrs = [x for x in a['attrs'] if x.get('path') == 'serde'] + [x for f in a['fields'] for x in f['attrs'] if x.get('path') == 'serde']
-            run.ob(key + ':no-serde-attrs', not sattrs, rule='K8', expected='no #[serde(..)] attribute (rename / skip / default) on the type or its fields', found=[x.get('text') for x in sattrs], where=a['span'])
+            # `bound(..)` only restates where-clauses and `deny_unknown_fields` only rejects more; everything else (rename, skip,
+            # default, flatten, with, ...) changes names, presence or defaults
+            def harmless(x):
+                t = re.sub(r'\s+', '', x.get('text') or '')
+                t = re.sub(r'"(?:[^"\\\\]|\\\\.)*"', '""', t)
+                t = re.sub(r'bound\((serialize="",?|deserialize="",?)*\)|bound=""', '', t)
+                t = t.replace('deny_unknown_fields', '')
+                return re.fullmatch(r'(#\[)?serde\(?[,]*\)?\]?', t) is not None
+            sattrs = [x for x in sattrs if not harmless(x)]
+            run.ob(key + ':no-serde-attrs', not sattrs, rule='K8', expected='no #[serde(..)] attribute that renames, skips or defaults on the type or its fields', found=[x.get('text') for x in sattrs], where=a['span'])
         check_serialize(run, L, path, fields, a)
         check_deserialize_header(run, L, path, fields)
         if de[0]['derived']:
@@ -379,7 +388,8 @@ def run(tier):
                 # the derived field identifier: "name_i" -> __field_i in declaration order, other keys ignored
                 ks = find_root(L, lambda k: ('for %s<' % path) in k and '__FieldVisitor' in k and k.endswith('::visit_str'))
                 if run.ob('%s:de:%s:visit_str:present' % (PROP, path), len(ks) == 1, rule='K8 reader table', expected='derived field-name visitor', found=ks):
-                    n2v = check_field_visitor(run, L, path, fields, ks[0], strict=False)
+                    # (Decomposed must reject unknown keys: a derived reader does so only with deny_unknown_fields)
+                    n2v = check_field_visitor(run, L, path, fields, ks[0], strict=dec)
                     run.ob('%s:de:%s:visit_str:order' % (PROP, path), [n2v.get(f) for f in fields] == list(range(len(fields))), rule='K8 reader table', expected='field i is identified by the i-th declared name', found=n2v, where=L.roots[ks[0]].get('span'))
         elif path in NEWTYPES:
             check_newtype_reader(run, L, path)
